@@ -7,3 +7,5 @@ import "github.com/hattya/go.sh/ast"
 func verifPoint(int, <-chan struct{}) {}
 
 func verifToken(*lexer, int, ast.Pos, string, ast.Word) {}
+
+func verifAlias(*lexer, int, rune, string) {}
